@@ -343,7 +343,7 @@ UNTRACE = [('kernpy.core.exporter', 'Exporter.append_row'), ('kernpy.core.export
 
 OBLIGATIONS = [
     Ob(id='C08.a', fn=ob_a, title='claimed core: every excerpt is well formed, re-imports cleanly, and every note keeps its clef / key / meter',
-       shard_of=lambda shape, a, b: shape, shards={'quick': 16, 'thorough': 16}, budget_s={'quick': 170, 'thorough': 2400}, opaque_numbers=True, untrace=UNTRACE,
+       shard_of=lambda shape, a, b: shape, shards={'quick': 32, 'thorough': 32}, budget_s={'quick': 170, 'thorough': 2400}, opaque_numbers=True, untrace=UNTRACE,
        witnesses=[{'shape': 0, 'a': 1, 'b': 2}], min_confirmed=500,
        symbolic='from_measure, to_measure (integers, assumed 1 <= a <= b <= M)', enumerated='score shape',
        bounds={'quick': 'M in {2,3} x 2 of 4 signature sets per M (clef/key/meter/meter symbol, per-spine clefs) x {1 kern, 2 kern, kern+text} x {no split, split+join in measure 1 / 2, '
